@@ -153,8 +153,14 @@ def parse_value_helper(chk, ctx, rule) -> None:
     from .. import terms as T
     mi = ctx.prog.module('utilities')
     pv = mi.functions.get('parse_value')
-    ok = pv is not None and any(isinstance(n, ast.Try) and 'int(raw_value)' in ast.unparse(n.body) and any('Decimal(raw_value)' in ast.unparse(h) for h in n.handlers)
-                                 for n in ast.walk(pv.node)) and any(T.norm(n.value) == T.spec("raw_value.replace(',', '')") for n in ast.walk(pv.node) if isinstance(n, ast.Assign))
+    ok = False
+    if pv is not None:
+        strips = [n for n in ast.walk(pv.node) if isinstance(n, ast.Assign) and T.norm(n.value) == T.spec("raw_value.replace(',', '')")
+                  and isinstance(n.targets[0], ast.Name)]
+        if len(strips) == 1:
+            v = strips[0].targets[0].id          # the stripped text: the parameter re-bound, or a local of its own
+            ok = any(isinstance(n, ast.Try) and f'int({v})' in ast.unparse(n.body) and any(f'Decimal({v})' in ast.unparse(h) for h in n.handlers)
+                     for n in ast.walk(pv.node))
     chk.ob(rule, 'utilities.parse_value', ok, pv.loc if pv else 'pokerkit/utilities.py',
            'chip text is an int when it can be, otherwise an exact Decimal (so `inf`, exponents and fractions written by the dumper '
            'read back); thousands separators are ignored')
